@@ -87,8 +87,9 @@ class EAM_Potential_Builder(object):
     null_embed_species = density_species - defined
 
     # Create the zero functions for null_embed_species.
+    # (sorted so that the order of species in the tabulation doesn't depend on set iteration order)
     null = zero()
-    for s in null_embed_species:
+    for s in sorted(null_embed_species):
       embed_dict[s] = null
 
 
